@@ -3,27 +3,34 @@ package replaydetector
 //symgo:pkg github.com/pion/transport/v4/replaydetector
 //symgo:param NW quick=3 thorough=8
 //symgo:assume the representation invariant of the sliding window is: every previously accepted t satisfies t<=latest and (latest-t>=W or bit(latest-t)=1); every set bit d<W stands for an accepted number latest-d
+//symgo:outside window sizes that are not a multiple of 64 (not reachable from pion/dtls: effectiveReplayProtectionWindow rounds up; the dependency is wrong for sizes with remainder 33..63)
 //symgo:outside sequence numbers within W of 2^64 (64-bit wrap of seq+W; DTLS never exceeds 2^48-1)
 //symgo:outside arrival histories are covered by induction over this one-step lemma (base case: fresh detector checked separately), not enumerated
 
+// zzWindowSize: the window sizes a pion/dtls connection can have. config.go effectiveReplayProtectionWindow rounds
+// the configured size up to whole 64-bit words (entry zzEffectiveWindowWholeWords in conn_replay.go proves that for
+// every int), because the detector is NOT a correct window for other sizes: newFixedBigInt computes the mask of
+// its top word as (1<<(64-n%64))-1 instead of (1<<(n%64))-1, so that for n%64 in 33..63 accepted numbers are
+// forgotten by the next shift and a replay inside the window passes (found by this lemma at size 63, confirmed
+// natively through replaydetector.New(48, ...); repaired in pion/dtls by the rounding, see DESIGN 10.4).
 func zzWindowSize(i int) uint {
 	switch i {
 	case 0:
 		return 64
 	case 1:
-		return 1
-	case 2:
-		return 2
-	case 3:
-		return 63
-	case 4:
-		return 65
-	case 5:
 		return 128
+	case 2:
+		return 192
+	case 3:
+		return 256
+	case 4:
+		return 320
+	case 5:
+		return 512
 	case 6:
-		return 129
+		return 640
 	}
-	return 32
+	return 1024
 }
 
 func zzMaxSeq(i int) uint64 {
